@@ -232,9 +232,9 @@ FAULT_KINDS = {
     "connect": ["refused", "timeout"],
     "sendall": ["reset", "timeout", "partial"],
     "recv": ["timeout", "reset", "eof", "eintr"],
-    "close": ["oserror"],
+    "close": ["oserror", "runtime"],
 }
-REPLY_FAULTS = ["error", "client_error", "server_error", "garbage", "badvalue"]
+REPLY_FAULTS = ["error", "client_error", "server_error", "garbage", "badvalue", "foreign"]
 INTERRUPT_KINDS = ["kbd", "sysexit", "gevent"]
 
 
